@@ -2,8 +2,9 @@
    processEventBatch calls SetTimer) over Model.TimerStore.
 
    Times are Z nanoseconds since the Unix epoch (time.Time comparisons are exact, so Before/After are < and > on Z).
-   The zero time.Time (year 1), the initial value of TimerRegistry.watermark, is [zero_time]; it is earlier than every
-   time whose UnixNano fits an int64.  Source-runner ids are numbers (the engine maps them to strings).
+   A new TimerRegistry starts with every configured upstream and its composite watermark at the epoch, time.Unix(0, 0)
+   (repo commit 9b0e491; before it the watermark field started as the zero time.Time of year 1, [zero_time]).
+   Source-runner ids are numbers (the engine maps them to strings).
    The upstream-minimum part of AdvanceWatermark is C11's subject; it is transcribed here because the composite
    watermark decides what fires. *)
 From RV Require Import Base.Bytes Model.TimerStore.
@@ -20,7 +21,7 @@ Fixpoint ups_set (id : N) (t : Z) (l : list (N * Z)) : list (N * Z) :=
   | (i, x) :: l' => if i =? id then (i, t) :: l' else (i, x) :: ups_set id t l'
   end.
 Definition registry_new (s : tstore) (srids : list N) : registry :=
-  {| r_store := s; r_ups := fold_left (fun l id => ups_set id 0%Z l) srids []; r_wm := zero_time |}.
+  {| r_store := s; r_ups := fold_left (fun l id => ups_set id 0%Z l) srids []; r_wm := 0%Z |}.
 
 (* iteru.MinFunc(maps.Values(upstreams), time.Time.Compare); the map is never empty when it is called *)
 Definition ups_min (l : list (N * Z)) : Z :=
